@@ -1,2 +1,13 @@
 THEOREMS = ["Pt.subst_no_capture", "Pt.inline_sound", "Pt.inline_call_free", "Pt.inline_call", "Pt.trace_names_agree",
-            "Pt.trace_binding_names_nodup", "Pt.retraverse_wrong"]
+            "Pt.trace_binding_names_nodup", "Pt.retraverse_wrong",
+            # PtProofs/C12Multi.lean (model PtModel/CallsMulti.lean)
+            "Pt.CallsM.call_result_projection", "Pt.CallsM.tuple_names_positional", "Pt.CallsM.tuple_return_names",
+            "Pt.CallsM.tuple_unpack_positional", "Pt.CallsM.dict_unpack", "Pt.CallsM.array_unpack",
+            "Pt.CallsM.lex_order_wrong",
+            "Pt.CallsM.trace_call_denote", "Pt.CallsM.trace_inline_eq_direct", "Pt.CallsM.trace_param_names",
+            "Pt.CallsM.trace_formals_nodup", "Pt.CallsM.trace_call_denote_names",
+            "Pt.CallsM.inline_sound_multi", "Pt.CallsM.tag_all_sound", "Pt.CallsM.inline_all_sound",
+            "Pt.CallsM.inline_call_free_multi", "Pt.CallsM.inline_no_tagged_left", "Pt.CallsM.inline_idempotent",
+            "Pt.CallsM.inline_real_order", "Pt.CallsM.wrong_order_leaves_calls", "Pt.CallsM.inline_preserves_sharing",
+            "Pt.CallsM.tag_all_complete", "Pt.CallsM.tag_all_only_tags", "Pt.CallsM.tag_all_idempotent",
+            "Pt.CallsM.inline_all_call_free", "Pt.CallsM.inline_all_idempotent", "Pt.CallsM.tag_all_stop_incomplete"]
